@@ -9,6 +9,7 @@ import NmVerif.Lemmas.LinalgTrace
 import NmVerif.Lemmas.LinalgTensordot
 import NmVerif.Lemmas.LinalgSmall
 import NmVerif.Lemmas.LinalgKron
+import NmVerif.Lemmas.LinalgRefusal
 /-
   C16 — Linear-algebra routines equal their mathematical definitions.
   Only property statements (+ non-vacuity examples, counterexample theorems) live here; the proofs are in
@@ -80,6 +81,39 @@ theorem matmulv2_value (sa sb dst : Shape) (ha : 1 ≤ sa.length) (hb : 1 ≤ sb
 theorem matmul_v1_1d_counterexample :
     (matmulV1 [3] [3]).map (fun r => r.get []) = some none ∧
     (specMatmul [3] [3]).map (fun r => r.get []) = some [([0], [0]), ([1], [1]), ([2], [2])] := by decide
+
+/-! ### refusals: operand pairs NumPy does not accept -/
+
+/-- `view::matmul` answers a view exactly on the operand pairs (ranks ≥ 1) `np.matmul` accepts: `Nothing` for mismatching
+    contracted extents (also 1 against n: not broadcast) and for batch axes that do not broadcast -/
+theorem matmul_isSome_iff (sa sb : Shape) (ha : 1 ≤ sa.length) (hb : 1 ≤ sb.length) :
+    (matmulV1 sa sb).isSome ↔ (specMatmulShape sa sb).isSome := matmulV1_isSome_iff sa sb ha hb
+
+example : (matmulV1 [2, 1] [3, 2]).isSome = false ∧ (specMatmulShape [2, 1] [3, 2]).isSome = false ∧
+    (matmulV1 [2, 3] [3, 2]).isSome = true := by decide
+
+/-- `view::dot` answers a value exactly on the operand pairs (ranks ≥ 1, positive extents) `np.dot` accepts: the reshape of
+    the tiled lhs has the element count `… k·n` against `… n·k'`, equal only for `k = k'` -/
+theorem dot_isSome_iff (sa sb : Shape) (ha : 1 ≤ sa.length) (hb : 1 ≤ sb.length) (hpa : Pos sa) (hpb : Pos sb) :
+    (dot sa sb).isSome ↔ (specDot sa sb).isSome := dot_isSome_iff_spec sa sb ha hb hpa hpb
+
+example : (dot [2, 1] [3, 2]).isSome = false ∧ (specDot [2, 1] [3, 2]).isSome = false ∧ (dot [2, 3] [4, 3, 2]).isSome = true ∧
+    Pos [2, 1] ∧ Pos [3, 2] := by decide
+
+/-- the unchanged `view::matmulv2` broadcasts a contracted axis of extent 1 against its partner (the `multiply` of the
+    pipeline) where NumPy raises — known finding matmulv2.contraction-extent-broadcast; `view::matmul` refuses the same pair -/
+theorem matmulv2_contraction_counterexample :
+    (matmulV2 [2, 1] [3, 2]).map (·.shape) = some [2, 2] ∧ specMatmulShape [2, 1] [3, 2] = none ∧
+    (matmulV1 [2, 1] [3, 2]).isSome = false := by decide
+
+/-- the unchanged `view::inner`, `view::vecdot`, `view::tensordot` (integer and explicit axes) broadcast a contracted axis of
+    extent 1 against its partner where NumPy raises — known finding C16.contraction-extent-broadcast (= C15's class) -/
+theorem contraction_extent_counterexample :
+    ((inner [2, 1] [2, 3]).map (·.shape) = some [2, 2] ∧ (specInner [2, 1] [2, 3]).isSome = false) ∧
+    ((vecdot [2, 1] [2, 3]).map (·.shape) = some [2] ∧ (specVecdot [2, 1] [2, 3]).isSome = false) ∧
+    ((tensordotInt [2, 1] [3, 2] 1).map (·.shape) = some [2, 2] ∧ (specTensordot [2, 1] [3, 2] [1] [0]).isSome = false) ∧
+    ((tensordotAxes [2, 1] [3, 2] [-1] [0]).map (·.shape) = some [2, 2]) :=
+  ⟨by decide, by decide, by decide, by decide⟩
 
 /-! ### dot / inner / outer / vecdot
 
